@@ -33,7 +33,7 @@ Section Pairs.
   Lemma first_state_ok x f0 t1 tr1 g t2 tr4 t3 tr5 f1 g1 G1 tr6 :
     step_f0 U c x = (Ok (f0, t1), tr1) -> step_g U c x t1 = (Ok (g, t2), tr4) -> step_sc U c x g t2 = (Ok t3, tr5) ->
     step_upd U x (mul f0 (scale t3)) (vscale g (scale t3)) (fst (restored c)) (snd (restored c)) = (Ok (f1, g1, G1), tr6) ->
-    let s0 := first_state K c x f1 g1 G1 t3 in
+    let s0 := first_state U K c x f1 g1 G1 t3 in
     VI U (scale t3) s0 /\ MEMV U K c (scale t3) s0 /\ snaps (tr1 ++ tr4 ++ tr5 ++ tr6) = [].
   Proof.
     intros H1 H4 H5 H6.
@@ -45,7 +45,7 @@ Section Pairs.
     destruct (step_sc_spec _ _ _ _ _ H5 I2) as (I3 & N5).
     unfold step_upd in H6. rewrite no_update_function in H6. unfold ret in H6. inversion H6; subst f1 g1 G1 tr6.
     assert (ER : restored c = ([], [])) by (unfold restored; rewrite no_checkpoint; reflexivity).
-    unfold first_state, nit_start. rewrite ER. cbn [fst snd].
+    unfold first_state, nit_start. rewrite ER, no_update_function. cbn [fst snd].
     assert (Hc : coh U (scale t3) x (mul f0 (scale t3)) (vscale g (scale t3))).
     { exists fv, gv. split; [exact V0|]. split; [exact Vg|]. rewrite Ef0, Eg, vscale_one. unfold fone. rewrite mul_one_r. auto. }
     split; [unfold VI; cbn; auto|]. split.
